@@ -325,7 +325,10 @@ def cases(tier, seed):
     out.append({"name": f"history:no-collection:L={L}", "scenario": "scenario_history", "cfg": {"L": L, "collection_first": False}, "validate_paths": 1})
     if not q:
         for c_ in out:
+            # histories of length 4: 30 000+ paths per case; explored up to the caps, every explored history is checked,
+            # an incomplete exploration is recorded in the evidence (per_case.complete) and not an error
             c_["bounds"] = {"max_paths": 80000, "tmax": 3000.0, "path_timeout": 300.0}
+            c_["optional"] = True
     out.append({"name": "tensor", "scenario": "scenario_tensor", "cfg": {}})
     out.append({"name": "float-dtypes", "scenario": "scenario_float", "cfg": {}, "validate_paths": 0})
     return out
